@@ -1617,11 +1617,18 @@ where
                     });
                 }
 
-                entry.size = new_entry_size;
-                let entry_ptr = EntryPtr::new(entry as *mut Entry<K, V>);
-                self.current_size += diff;
+                let mut entry_ptr = EntryPtr::new(entry as *mut Entry<K, V>);
                 self.touch_ptr(entry_ptr);
-                self.eject_to_target(max_size);
+
+                // Make room before accounting for the growth, so the current
+                // size can never exceed the maximum size (and thus never
+                // overflow). The mutated entry is most-recently-used and the
+                // size accounted for it so far fits into the target, so it is
+                // never ejected here.
+
+                self.eject_to_target(max_size - diff);
+                entry_ptr.get_mut().size = new_entry_size;
+                self.current_size += diff;
             }
             else {
                 // The operation was non-expanding; everything is ok.
